@@ -3,6 +3,8 @@ package trzsz
 import (
 	"bytes"
 	"fmt"
+	"os"
+	"path/filepath"
 	"strings"
 	"time"
 
@@ -256,7 +258,61 @@ func vC03Backlog(rc *runCtx) {
 	rc.res.Nontrivial = true
 }
 
+// vC03Pumps: the bytes reach the buffer through each side's pump (the server's stdin reader, the client's
+// output reader): whole fault-free transfers over links that cut nearly every write into many reads, lone
+// bytes included. Whatever the cutting, the transfer ends as it does without any.
+func vC03Pumps(rc *runCtx) {
+	tp := rc.tape
+	cfg := vDrawConfig(tp, false)
+	cfg.timeout = 20
+	cfg.trigVersion = ""
+	if tp.Bool("c03p.win", 150) {
+		if tp.Bool("c03p.winsrv", 500) {
+			cfg.srvWindows = true
+		} else {
+			cfg.cliWindows = true
+		}
+	}
+	src := filepath.Join(rc.dir, "src")
+	dst := filepath.Join(rc.dir, "dst")
+	os.MkdirAll(dst, 0755)
+	spec := vGenSources(rc, src, 3, cfg.dirMode, 50000, !cfg.overwrite)
+	o := cfg.opts()
+	o.srcPaths, o.dstDir = spec.paths, dst
+	o.profile = transportProfile{segPm: []int{1000, 700}[tp.Draw("c03p.seg", 2)], coalPm: []int{0, 100, 400}[tp.Draw("c03p.coal", 3)], maxCuts: 2 + tp.Draw("c03p.maxcuts", 8)}
+	if tp.Bool("c03p.lat", 300) {
+		o.profile.latPm, o.profile.latMax = 300, 20*time.Millisecond
+	}
+	o.simCap = 20 * time.Minute
+	rc.res.ClassKey = "pumps " + cfg.key()
+	rc.res.Scenario["config"] = cfg.key()
+	rc.res.Scenario["flags"] = strings.Join(o.flags, " ")
+	rc.res.Scenario["transport"] = o.profile.String()
+	before := vSnapshot(dst)
+	x := newXferWorld(rc, o)
+	x.start()
+	rc.w.Run(x.finished)
+	rep := x.report()
+	vCheckFidelity(rc, x, rep, before, true)
+	if rc.res.Class == "violation" {
+		rc.res.Sig = strings.Replace(rc.res.Sig, "C01:", "C03:pumps:", 1)
+		rc.res.Msg = "over links that cut nearly every write into several reads: " + rc.res.Msg
+	}
+	var cuts int64
+	for _, l := range append(append([]*verifsim.Link{}, x.up...), x.down...) {
+		cuts += int64(l.Cuts)
+	}
+	rc.res.Scenario["cuts"] = cuts
+	for i := int64(0); i < cuts && i < 50; i++ {
+		rc.fault("write-cut-into-reads")
+	}
+}
+
 func vScenarioC03(rc *runCtx) {
+	if rc.param("pumps", "0") == "1" {
+		vC03Pumps(rc)
+		return
+	}
 	if rc.tape.Bool("c03.backlog", 40) {
 		vC03Backlog(rc)
 		return
